@@ -38,6 +38,9 @@ pub enum Action {
     },
     /// drop the combinator now
     Drop,
+    /// invoke the current waker of every live child that is pending (many
+    /// wake-ups before the task gets to run again)
+    FireAll,
 }
 
 #[derive(Clone, Debug, PartialEq, Eq, Hash)]
@@ -49,7 +52,7 @@ pub struct Case {
     /// skip the drain (end the case after the adversarial phase)
     pub no_drain: bool,
     /// C17 mode: number of polls to run
-    pub fair_polls: u16,
+    pub fair_polls: u32,
     /// C03: polls of the combinator *after* it produced its final result
     /// (allowed to panic or answer anything, but not to poll a child)
     pub post_polls: u8,
@@ -130,6 +133,7 @@ impl Case {
                     if *thread { ",thread" } else { "" }
                 ),
                 Action::Drop => "Drop".into(),
+                Action::FireAll => "FireAll".into(),
             })
             .collect();
         format!(
